@@ -105,7 +105,7 @@ def prove_decode_lemmas(reg, prop, D):
 # --------------------------------------------------------------------------
 
 class TableSpec(object):
-    def __init__(self, info):
+    def __init__(self, info, tu=None):
         self.info = info
         pt = info.parameters
         self.npars = pt.npars
@@ -116,9 +116,18 @@ class TableSpec(object):
         for p in pt.kernel_parameters:
             self.slots[p.id] = (pos, p.length)
             pos += p.length
-        self.theta_offset = pt.theta_offset
-        self.iq_pars = list(pt.iq_parameters)
-        self.vol_pars = list(pt.form_volume_parameters)
+        # slot of the parameter named theta, computed here (not taken from the table's own field)
+        self.theta_offset = self.slots["theta"][0] if "theta" in self.slots else -1
+        self.table_theta_offset = pt.theta_offset
+        # reparameterised model: the model functions take the *base* parameters,
+        # computed from the table by the translation equations
+        self.translation = getattr(info, "translation", None)
+        base = getattr(info, "base", None) if self.translation else None
+        self.base = base if base is not None else pt
+        self.iq_pars = list(self.base.iq_parameters)
+        self.vol_pars = list(self.base.form_volume_parameters)
+        self.tu = tu
+        self._tmap_cache = None
         self.is_oriented = any(p.type == "orientation" for p in pt.kernel_parameters)
         self.has_psi = any(p.name == "psi" for p in pt.kernel_parameters)
         self.have_Fq = bool(info.have_Fq)
@@ -126,13 +135,97 @@ class TableSpec(object):
         self.has_reff = info.radius_effective_modes is not None or "radius_effective" in _c_functions(info)
 
     def args(self, pars, L):
-        """z3 argument terms for a parameter list read from parameter vector L."""
+        """z3 argument terms for a parameter list read from parameter vector L
+        (through the translation equations for a reparameterised model)."""
         out = []
+        tmap = self.translate(L) if self.translation else None
         for p in pars:
+            if tmap is not None and p.id in tmap:
+                out.append(tmap[p.id])
+                continue
             slot, ln = self.slots[p.id]
             for j in range(ln):
                 out.append(L(slot + j))
         return out
+
+    def translate(self, L):
+        """Independent reading of the translation text: name -> z3 term over L.
+        Assignments are evaluated in order; names on the right are table parameters,
+        earlier intermediates, header constants or C math functions."""
+        import ast as pyast
+        env = {}
+        consts = header_constants(self.tu) if self.tu is not None else {}
+
+        def ev(n):
+            if isinstance(n, pyast.Expression):
+                return ev(n.body)
+            if isinstance(n, pyast.BinOp):
+                a, b = ev(n.left), ev(n.right)
+                return {pyast.Add: lambda: a + b, pyast.Sub: lambda: a - b, pyast.Mult: lambda: a * b,
+                        pyast.Div: lambda: a / b}[type(n.op)]()
+            if isinstance(n, pyast.UnaryOp) and isinstance(n.op, pyast.USub):
+                return -ev(n.operand)
+            if isinstance(n, pyast.UnaryOp) and isinstance(n.op, pyast.UAdd):
+                return ev(n.operand)
+            if isinstance(n, pyast.Constant):
+                return cvc.cfloat(repr(n.value) if not isinstance(n.value, str) else n.value)
+            if isinstance(n, pyast.Name):
+                if n.id in env:
+                    return env[n.id]
+                if n.id in self.slots:
+                    return L(self.slots[n.id][0])
+                if n.id in consts:
+                    return consts[n.id]
+                raise OutsideSubset("translation refers to unknown name %s" % n.id)
+            if isinstance(n, pyast.Call) and isinstance(n.func, pyast.Name):
+                args = [ev(a) for a in n.args]
+                f = n.func.id
+                if f == "square":
+                    return args[0] * args[0]
+                if f == "cube":
+                    return args[0] * args[0] * args[0]
+                if f == "fabs":
+                    return z3.If(args[0] >= 0, args[0], -args[0])
+                return uf(f, len(args))(*args)
+            raise OutsideSubset("translation expression outside the spec parser: %s" % pyast.dump(n)[:80])
+        for line in self.translation.split("\n"):
+            code = line.split("#", 1)[0].split("//", 1)[0].strip()
+            if not code:
+                continue
+            var, expr = code.split("=", 1)
+            env[var.strip()] = ev(pyast.parse(expr.strip(), mode="eval"))
+        return env
+
+
+_const_cache = {}
+
+
+def header_constants(tu):
+    """Values of the header's M_* constants on the DLL path, obtained by letting
+    clang preprocess the generated source with probe lines appended."""
+    key = tu.sha
+    if key in _const_cache:
+        return _const_cache[key]
+    import subprocess, tempfile, os
+    names = sorted(set(re.findall(r"#\s*define\s+(M_[A-Z0-9_]+)", tu.source)))
+    probe = tu.source + "\n" + "\n".join("VERIFPROBE_%s %s" % (n, n) for n in names) + "\n"
+    scratch = os.environ.get("VERIF_SCRATCH") or "/tmp"
+    path = os.path.join(scratch, "probe_%s_%d.c" % (tu.name, os.getpid()))
+    open(path, "w").write(probe)
+    try:
+        out = subprocess.run(["clang", "-std=c99", "-E", "-P", "-w", path], capture_output=True, text=True).stdout
+    finally:
+        os.unlink(path)
+    vals = {}
+    for line in out.splitlines():
+        if line.startswith("VERIFPROBE_"):
+            nm, _, val = line.partition(" ")
+            try:
+                vals[nm[len("VERIFPROBE_"):]] = cvc.cfloat(val.strip().rstrip("fFlL"))
+            except Exception:
+                pass
+    _const_cache[key] = vals
+    return vals
 
 
 _cfn_cache = {}
@@ -184,9 +277,12 @@ def valid_spec(info, ts, L):
             return z3.RealVal(fr.numerator) / z3.RealVal(fr.denominator) if fr.denominator != 1 \
                 else z3.RealVal(fr.numerator)
         if isinstance(n, pyast.Name):
+            if tmap is not None and n.id in tmap:
+                return tmap[n.id]
             slot, ln = ts.slots[n.id]
             return L(slot)
         raise OutsideSubset("validity expression %r" % txt)
+    tmap = ts.translate(L) if ts.translation else None
     return ev(tree)
 
 
@@ -202,7 +298,7 @@ class KernelProof(object):
         self.reg, self.prop, self.model, self.kind = reg, prop, model, kind
         self.tu = cvc.model_tu(model, info)
         self.info = self.tu.info
-        self.ts = TableSpec(self.info)
+        self.ts = TableSpec(self.info, self.tu)
         self.fname = "%s_%s" % (self.info.id.replace("-", "_"), kind) if False else None
         cands = [f for f in self.tu.functions if f.endswith("_" + kind)]
         if len(cands) != 1:
@@ -221,8 +317,44 @@ class KernelProof(object):
                     slot, ln = self.ts.slots[p.id]
                     self.sld_slots += list(range(slot, slot + ln))
         self.nout = 2 if (self.ts.have_Fq and kind == "Iq") else 1
+        oid = "%s.kernel.%s.generated_source_is_wellformed_c" % (prop, self.tag.rsplit(".", 1)[0])
+        if self.tu.errors:
+            reg.fail(oid, {"call": "generate.make_source(<%s>)['dll'] checked by clang -std=c99 -fsyntax-only" % model,
+                           "diagnostics": self.tu.errors[:6]},
+                     function="sasmodels/generate.py:make_source", engine="clang")
+            exc = OutsideSubset("generated source of %s is not well-formed C: %s" % (model, self.tu.errors[0]))
+            exc.reported = True
+            raise exc
+        reg.passed(oid, function="sasmodels/generate.py:make_source", engine="clang", backend="clang-frontend")
+        self.signature_obligations(oid.rsplit(".", 1)[0])
         reg.function_under_contract("generated:%s (kernel_iq.c expanded for %s)" % (self.fname, model),
                                     "sasmodels/kernel_iq.c", 0, 0, self.tu.func_text(self.fn))
+
+    def signature_obligations(self, prefix):
+        """Functions generated from C bodies given as strings take exactly the
+        arguments the kernel's CALL_* macros pass: the base table's parameters, in order."""
+        base = self.ts.base
+        iq = [p.id for p in base.iq_parameters]
+        expected = {
+            "form_volume": [p.id for p in base.form_volume_parameters],
+            "shell_volume": [p.id for p in base.form_volume_parameters],
+            "Iq": ["q"] + iq,
+            "Iqxy": ["qx", "qy"] + iq + [p.id for p in base.orientation_parameters],
+            "Iqac": ["qab", "qc"] + iq,
+            "Iqabc": ["qa", "qb", "qc"] + iq,
+        }
+        for fn, names in expected.items():
+            if not isinstance(getattr(self.info, fn, None), str) or fn not in self.tu.functions:
+                continue
+            got = [c_["name"] for c_ in self.tu.functions[fn].get("inner", []) if c_.get("kind") == "ParmVarDecl"]
+            oid = "%s.generated_signature.%s" % (prefix, fn)
+            if got == names:
+                self.reg.passed(oid, function="sasmodels/generate.py:make_source", engine="clang",
+                                backend="ast-compare")
+            else:
+                self.reg.fail(oid, {"call": "generate.make_source(<%s>)['dll']" % self.model,
+                                    "generated_parameters": got, "parameters_passed_by_CALL_macros": names},
+                              function="sasmodels/generate.py:make_source", engine="clang")
 
     # ---- symbolic inputs -------------------------------------------------
     def inputs(self):
@@ -262,7 +394,7 @@ class KernelProof(object):
                 flds[fname] = CArr(get, "int", "details." + fname, ln)
             else:
                 val = {"num_eval": self.N, "num_weights": self.NW, "num_active": z3.Int("num_active"),
-                       "theta_par": z3.IntVal(self.ts.theta_offset)}[fname]
+                       "theta_par": z3.IntVal(self.ts.table_theta_offset)}[fname]
                 flds[fname] = Cell(val, fqt, "details." + fname)
         self.details = CStruct(flds, "details")
         pre = [self.nq >= 0, self.B >= 0, self.B < self.S, self.S <= self.N, self.NW >= 0, self.s[0] == 1,
@@ -878,7 +1010,7 @@ class KernelProof(object):
                       nl=nme not in ("writes_only_q_slots", "parameter_vector_unchanged"),
                       replay=self.replay)
             oid = "%s.kernel.%s.body_contract.%s" % (prop, tag, nme)
-            if atoms and self.magnetic:
+            if atoms and (self.magnetic or self.ts.translation):
                 reg.prove_by_cases(oid, assumptions, goal, [a for a in atoms if not z3.is_true(z3.simplify(a))], **kw)
             else:
                 reg.prove(oid, assumptions, goal, **kw)
@@ -941,6 +1073,8 @@ def _kernel_job(sub, job):
     try:
         KernelProof(sub, prop, model, kind).run()
     except OutsideSubset as exc:
+        if getattr(exc, "reported", False):
+            return
         sub.undecided("%s.kernel.%s.%s.engine" % (prop, model, kind), "outside subset: %s" % exc,
                       function="generated:%s_%s" % (model, kind), engine="cvc")
 
